@@ -806,10 +806,21 @@ def r_group_helper(ctx: Ctx, rule: str):
                 if we is not None:
                     tgt = we.target.id
 
-            def removed_something(a: Node, b: Node, lab: Label, tgt=tgt) -> bool:
+            tgt_frame = p.func
+            if tgt is None and p.func is not f and isinstance(st_, ast.Return) and st_.value is p.ast and len(p.ast.args) == 2 \
+                    and isinstance(p.ast.args[1], ast.Constant) and p.ast.args[1].value is None:
+                # the pop-with-default is what a helper spliced in returns: `x = self._forget(name)` / `if x is None: return` in the caller
+                for x in ctx.an.scope(f)._own_nodes():
+                    c_ = x.value if isinstance(x, (ast.Assign, ast.AnnAssign, ast.NamedExpr)) else None
+                    if isinstance(c_, ast.Call) and ctx.an.spliced_at.get(id(c_)) is p.func:
+                        t_ = x.targets[0] if isinstance(x, ast.Assign) and len(x.targets) == 1 else getattr(x, "target", None)
+                        if isinstance(t_, ast.Name):
+                            tgt, tgt_frame = t_.id, f
+
+            def removed_something(a: Node, b: Node, lab: Label, tgt=tgt, tgt_frame=tgt_frame) -> bool:
                 if lab[0] not in NORMAL_KINDS:
                     return False
-                if tgt is not None and a.op == "test" and lab[0] in ("T", "F") and a.func is p.func:
+                if tgt is not None and a.op == "test" and lab[0] in ("T", "F") and a.func is tgt_frame:
                     v = _none_test(a.ast, tgt)
                     if v is not None and (lab[0] == "T") == v:
                         return False
